@@ -372,6 +372,7 @@ func (g *c08Gen) gap(o *c08LayoutOpt) []c08Skip {
 type c08Gen struct {
 	c         *Ctx
 	longEvery int // one in longEvery random layouts pads a line past the reader buffer
+	atomNext  int // the first atom of each generated matcher cycles through c08Atoms, so every atom occurs
 }
 
 // split v at a random subset of its single blanks (a ' ' whose neighbours are not white space)
@@ -885,8 +886,11 @@ func (g *c08Gen) matcher() string {
 	for i := 0; i < n; i++ {
 		if i > 0 {
 			b.WriteString([]string{" && ", " || ", "&&", " &&  ", " ||\t"}[r.Intn(5)])
+			b.WriteString(g.pick(c08Atoms))
+		} else {
+			b.WriteString(c08Atoms[g.atomNext%len(c08Atoms)])
+			g.atomNext++
 		}
-		b.WriteString(g.pick(c08Atoms))
 	}
 	return b.String()
 }
@@ -1081,7 +1085,7 @@ const c08Examples = "/repo/examples"
 
 func init() {
 	register("C08", func(c *Ctx) {
-		g := &c08Gen{c, 3}
+		g := &c08Gen{c: c, longEvery: 3}
 		nExact, nLoose, nGen, nHostile := 32, 6, 50, 5000
 		if c.Thorough() {
 			nExact, nLoose, nGen, nHostile = 300, 40, 120, 40000
@@ -1218,6 +1222,22 @@ func init() {
 				ld := g.layout(s.doc, o)
 				c.Count("exact-layout")
 				run(fmt.Sprintf("c08.%s.L%d", s.name, i), ld, false, o)
+			}
+			// definitions in front of the first header go to the section "default", which the model loader never
+			// reads: outside the theorem's family (text-only cases), same definitions expected
+			for i := 0; i < 2 && base.defs != nil; i++ {
+				o := g.randomOpt(8 + i)
+				o.long, o.inlineCmt = 0, false
+				ld := g.layout(s.doc, o)
+				pre := g.pick([]string{"m = wrong\n", "x = 1\n  r = a, b \\\n , c\n", "; remark\nm = wrong ; m\n\n", "e = deny\r\np = q\r\n"})
+				text := pre + c08Render(ld)
+				id := fmt.Sprintf("c08.%s.P%d", s.name, i)
+				c.Case(id, "T "+Q(text)+" "+psx)
+				c.Count("with-preamble-definitions")
+				res, _ := c08Observe(c, id, text, probes, true)
+				if c08Sig(res, false) != c08Sig(base, false) {
+					c.Direct(id, "definitions in front of the first section header change the model", Q(text))
+				}
 			}
 			for i := 0; i < nLoose; i++ {
 				o := g.randomOpt(8 + i)
